@@ -183,4 +183,80 @@ theorem split_adds_up (produced eaten : K) :
   · show eaten + 0 = eaten
     ring
 
+/-! ## feed and biofuel drawn from each resource -/
+
+theorem pctOfNeed_eq (i : Inp K) (ratio v : K) :
+    pctOfNeed i ratio v = v * ratio / i.billionKcalsNeeded * 100 := by
+  unfold pctOfNeed; rw [sci_100]
+
+/-- the five feed entries add up to the feed total of the LP, in percent of need -/
+theorem nonhuman_feed_sum (i : Inp K) (x : Var → K) (m : Nat) :
+    ((nonhumanMonth i x m).take 5).sum = feedTotal i x m / i.billionKcalsNeeded * 100 := by
+  unfold nonhumanMonth feedTotal
+  simp only [List.take_succ_cons, List.take_zero, List.sum_cons, List.sum_nil, pctOfNeed_eq,
+    valIf_eq_X]
+  ring
+
+theorem nonhuman_biofuel_sum (i : Inp K) (x : Var → K) (m : Nat) :
+    ((nonhumanMonth i x m).drop 5).sum = biofuelTotal i x m / i.billionKcalsNeeded * 100 := by
+  unfold nonhumanMonth biofuelTotal
+  simp only [List.drop_succ_cons, List.drop_zero, List.sum_cons, List.sum_nil, pctOfNeed_eq,
+    valIf_eq_X]
+  ring
+
+theorem nonhuman_sum_eq_charge (i : Inp K) (x : Var → K) (h : Feasible (buildLP i .toHumans) x)
+    (hany : anyFeedVar i = true) (m : Nat) (hm : m < i.nmonths) :
+    ((nonhumanMonth i x m).take 5).sum = at' i.feed m / i.billionKcalsNeeded * 100 ∧
+    ((nonhumanMonth i x m).drop 5).sum = at' i.biofuel m / i.billionKcalsNeeded * 100 := by
+  obtain ⟨h1, h2⟩ := feed_biofuel_eq_charge h hany hm
+  rw [nonhuman_feed_sum, nonhuman_biofuel_sum, h1, h2]
+  exact ⟨rfl, rfl⟩
+
+theorem nonhuman_sum_le_ceiling (i : Inp K) (x : Var → K) (h : Feasible (buildLP i .toAnimals) x)
+    (hany : anyFeedVar i = true) (hb : 0 ≤ i.billionKcalsNeeded) (m : Nat) (hm : m < i.nmonths) :
+    ((nonhumanMonth i x m).take 5).sum ≤ at' i.maxFeed m / i.billionKcalsNeeded * 100 ∧
+    ((nonhumanMonth i x m).drop 5).sum ≤ at' i.maxBiofuel m / i.billionKcalsNeeded * 100 := by
+  obtain ⟨h1, h2⟩ := feed_biofuel_le_ceiling h hany hm
+  rw [nonhuman_feed_sum, nonhuman_biofuel_sum]
+  exact ⟨mul_le_mul_of_nonneg_right (div_le_div_of_nonneg_right h1 hb) (by norm_num),
+    mul_le_mul_of_nonneg_right (div_le_div_of_nonneg_right h2 hb) (by norm_num)⟩
+
+theorem nonhuman_nonneg (i : Inp K) (x : Var → K) (hx : ∀ v, 0 ≤ x v)
+    (hb : 0 ≤ i.billionKcalsNeeded) (hkc : 0 ≤ i.seaweedKcals) (m : Nat) :
+    ∀ e ∈ nonhumanMonth i x m, 0 ≤ e := by
+  have hv : ∀ (on : Bool) (k : VK), 0 ≤ valIf x on k m := by
+    intro on k; unfold valIf; split_ifs
+    · exact hx _
+    · exact le_rfl
+  have hp : ∀ (r v : K), 0 ≤ r → 0 ≤ v → 0 ≤ pctOfNeed i r v := by
+    intro r v hr hv'
+    rw [pctOfNeed_eq]
+    exact mul_nonneg (div_nonneg (mul_nonneg hv' hr) hb) (by norm_num)
+  intro e he
+  unfold nonhumanMonth at he
+  simp only [List.mem_cons, List.not_mem_nil, or_false] at he
+  rcases he with rfl | rfl | rfl | rfl | rfl | rfl | rfl | rfl | rfl | rfl
+  all_goals first
+    | exact hp _ _ zero_le_one (hv _ _)
+    | exact hp _ _ hkc (hv _ _)
+
+/-- a one-month instance with SCP only, one unit of it fed to animals -/
+def scpOnlyInst : Inp ℚ := { emptyInst with nmonths := 1, addScp := true, addCs := true }
+
+def scpOnlyX : Var → ℚ
+  | .mv .scpFeed _ => 1
+  | _ => 0
+
+/-- the sugar and SCP entries are distinguishable: a point at which exchanging them changes what
+    is reported (SCP and sugar both on, 1 unit of SCP and no sugar fed to animals) -/
+theorem nonhuman_swap_counterexample :
+    ∃ (i : Inp ℚ) (x : Var → ℚ) (m : Nat), m < i.nmonths ∧ (∀ v, 0 ≤ x v) ∧
+      swapSugarScp (nonhumanMonth i x m) ≠ nonhumanMonth i x m := by
+  refine ⟨scpOnlyInst, scpOnlyX, 0, by decide, ?_, by decide +kernel⟩
+  intro v
+  cases v with
+  | mv k m => cases k <;> first | exact le_rfl | exact zero_le_one
+  | objective => exact le_rfl
+  | objectiveBest => exact le_rfl
+
 end Allfed.Proofs.Report
